@@ -30,6 +30,11 @@ class MidiFileInputDevice:
         notes = []
         offset = 0
         for event in track:
+            #------------------------------------------------------------------------
+            # Every message advances the running time by its delta, whether or not
+            # it is a note message (controllers, pitch-bend, meta events...).
+            #------------------------------------------------------------------------
+            offset += event.time / midi_reader.ticks_per_beat
             if event.type == 'note_on' and event.velocity > 0:
                 #------------------------------------------------------------------------
                 # Found a note_on event.
@@ -41,14 +46,12 @@ class MidiFileInputDevice:
                 if event.velocity > 127:
                     event.velocity = 127
 
-                offset += event.time / midi_reader.ticks_per_beat
                 note = MidiNote(event.note, event.velocity, offset)
                 notes.append(note)
             elif event.type == 'note_off' or (event.type == 'note_on' and event.velocity == 0):
                 #------------------------------------------------------------------------
                 # Found a note_off event.
                 #------------------------------------------------------------------------
-                offset += event.time / midi_reader.ticks_per_beat
                 for note in reversed(notes):
                     if note.pitch == event.note and note.duration is None:
                         note.duration = offset - note.location
